@@ -154,7 +154,7 @@ def run(ctx):
     ctx.rule = ("builder scenarios from vlib/bgen.py: wallets of 1..12 UTxOs (ADA-only / multi-asset), 0..3 outputs, mint "
                 "and burn, withdrawals, 15 certificate kinds with deposits / refunds, proposals, donation, explicit / "
                 "potential / excluded / address-selected inputs, merge_change, 6 parameter sets, three selector "
-                "configurations; non-trivial = built successfully with a change address (distinct scenario)")
+                "configurations; every fifth scenario a multi-round wallet (each UTxO ADA + the same tokens, request a third); non-trivial = built successfully with a change address (distinct scenario)")
     ctx.assumptions = ["ref/ledger_ref.py transcribes the Conway balance equation and deposit / refund table",
                        "a pool registration pays the pool deposit iff initial_stake_pool_registration is set",
                        "the fee value itself is C07's concern: conservation is evaluated for whatever fee the body carries"]
@@ -163,7 +163,7 @@ def run(ctx):
     rng = ctx.rng
     n = ctx.budget(350, 12000)
     for i in range(n):
-        sc = live_scenario(rng) if i % 5 == 4 else bgen.gen_value_scenario(rng)
+        sc = live_scenario(rng) if i % 5 == 4 else bgen.gen_multiround(rng) if i % 5 == 2 else bgen.gen_value_scenario(rng)
         check_scenario(ctx, sc)
 
 
